@@ -88,5 +88,86 @@ theorem zipWith_locate_conj (ls : List Leg) (idx : List Nat) :
     | nil => simp
     | cons i is => simp [ih, Leg.conj_locate]
 
+theorem locate_congr (l l' : Leg) (h : l.slices = l'.slices) (i : Nat) : l.locate i = l'.locate i := by
+  simp [Leg.locate, h]
+
+theorem indLen_congr (l l' : Leg) (h : l.slices = l'.slices) : l.indLen = l'.indLen := by
+  simp [Leg.indLen, h]
+
+/-- the dense form only depends on the *slices* of the legs (not on charges, direction or flags) -/
+theorem toDense_congr_slices [Zero α] (a b : Arr α) (hq : a.qdata = b.qdata) (hd : a.data = b.data)
+    (hs : a.lcs.map Leg.slices = b.lcs.map Leg.slices) : a.toDense = b.toDense := by
+  have hloc : ∀ idx : List Nat, List.zipWith (fun l i => l.locate i) a.lcs idx
+      = List.zipWith (fun l i => l.locate i) b.lcs idx := by
+    have : ∀ (xs ys : List Leg), xs.map Leg.slices = ys.map Leg.slices → ∀ idx : List Nat,
+        List.zipWith (fun l i => l.locate i) xs idx = List.zipWith (fun l i => l.locate i) ys idx := by
+      intro xs
+      induction xs with
+      | nil => intro ys h idx; cases ys <;> simp_all
+      | cons x xs ih =>
+        intro ys h idx
+        cases ys with
+        | nil => simp at h
+        | cons y ys =>
+          simp only [List.map_cons, List.cons.injEq] at h
+          cases idx with
+          | nil => simp
+          | cons i is => simp [locate_congr x y h.1, ih ys h.2 is]
+    exact this _ _ hs
+  have hshape : a.shape = b.shape := by
+    have : ∀ (xs ys : List Leg), xs.map Leg.slices = ys.map Leg.slices → xs.map Leg.indLen = ys.map Leg.indLen := by
+      intro xs
+      induction xs with
+      | nil => intro ys h; cases ys <;> simp_all
+      | cons x xs ih =>
+        intro ys h
+        cases ys with
+        | nil => simp at h
+        | cons y ys =>
+          simp only [List.map_cons, List.cons.injEq] at h
+          simp [indLen_congr x y h.1, ih ys h.2]
+    exact this _ _ hs
+  unfold Arr.toDense
+  rw [hshape]
+  refine Dense.ofFn_congr _ _ _ (fun idx => ?_)
+  unfold Arr.entry
+  rw [hloc idx, hq, hd]
+
+theorem getD_set_map {β γ} (f : β → γ) (l : List β) (k : Nat) (x : β) (h : k < l.length → f x = f (l[k]?.getD x)) :
+    (l.set k x).map f = l.map f := by
+  induction l generalizing k with
+  | nil => simp
+  | cons y ys ih =>
+    cases k with
+    | zero => simp at h; simp [h]
+    | succ k =>
+      simp only [List.set_cons_succ, List.map_cons, List.cons.injEq, true_and]
+      apply ih
+      intro hk
+      have := h (by simp; omega)
+      simpa using this
+
+/-- `gauge_total_charge` leaves the dense form unchanged and sets the requested total charge -/
+theorem toDense_gaugeTotalCharge [Zero α] (a r : Arr α) (axis : Ax) (newq : Option Charge) (nc : Option Int)
+    (h : a.gaugeTotalCharge axis newq nc = .ok r) :
+    r.toDense = a.toDense ∧ r.qtotal = makeValid a.mods (newq.getD (czero a.mods.length)) ∧ r.labels = a.labels := by
+  unfold Arr.gaugeTotalCharge at h
+  cases hk : a.getLegIndex axis with
+  | error e => simp [hk, bind, Except.bind] at h
+  | ok k =>
+    simp only [hk, bind, Except.bind, pure, Except.pure] at h
+    split at h
+    · simp [throw, throwThe, MonadExceptOf.throw] at h
+    · simp only [Except.ok.injEq] at h
+      subst h
+      refine ⟨?_, rfl, rfl⟩
+      refine toDense_congr_slices _ a (by rfl) (by rfl) ?_
+      simp only [Arr.lcs, List.map_map]
+      apply getD_set_map
+      intro hk'
+      simp [Function.comp, ALeg.leg, Leg.fromQind, Leg.mk', Arr.lc, List.getD_eq_getElem?_getD]
+      cases hget : a.legs[k]? with
+      | none => simp [List.getElem?_eq_none_iff] at hget; omega
+      | some l => simp
 end Arr
 end TenpyModel.Core
